@@ -14,6 +14,12 @@ CLAIMS = {
         note="Trusted: CPython re semantics for the supported regex subset; alphabet is Latin-1 plus Unicode class representatives; stdlib constructor domains (int limit, date validity, Decimal/UUID grammar) are a frozen fact table.",
         ref="DESIGN.md section 3, C08",
     ),
+    "C09": dict(
+        technique="static analysis: path-sensitive AST dataflow; symbolic rewrite algebra on reaching-definition trees; idiom table for segment-aware prefix tests",
+        text="All clauses of C09 are structural and are decided on every path of the eight functions involved: the prefix test is segment-aware (path == prefix or path.startswith(prefix + '/')), the table is searched in declaration order with a None fallback, the match branch stores root' = root + P and path' = path[len(P):] with the same P and the same searched path (so root'+path' = root+path symbolically, which composes for nested mounts), the no-match branch stores nothing before Response(404), hosts use fullmatch in table order with a 404 fallback.",
+        note="Trusted: str.startswith/slicing semantics; an acceptance test written in an idiom outside the table is reported as a violation only for the bare-startswith anti-idiom, otherwise as an unmatched acceptance path.",
+        ref="DESIGN.md section 3, C09",
+    ),
 }
 
 NOT_APPLICABLE = {
